@@ -286,6 +286,13 @@ class HistRunner:
             anoms.append(Anomaly(cls='stuck', key='stuck', what='invocation stuck: %s' % (r.witness,)))
         elif r.status == 'timeout':
             anoms.append(Anomaly(cls='timeout', key='timeout', what='watchdog without stuck witness: %s' % (r.witness,)))
+        elif r.status == 'exit' and (r.rc in (-15, -2, -1) or re.search(r'(?m)^(redo\s+)?Terminated\s*$', r.err or '')):
+            # SIGTERM/SIGINT/SIGHUP: redo never sends these and this harness did not either (its watchdog uses SIGKILL after
+            # recording 'timeout'/'stuck'): something outside the experiment ended the command.  Not an observation of redo.
+            anoms.append(Anomaly(cls='timeout', key='timeout', what='command (or a process of one of its scripts: sh reports "Terminated") ended by a signal sent from outside the experiment (rc=%s)' % r.rc))
+            self.anoms.extend(anoms)
+            entry['anoms'] = [a['cls'] for a in anoms]
+            return entry, anoms, None
         pt = common.panic_text(r.err) or common.panic_text(r.out)
         if pt or r.rc == 101:
             loc = re.search(r'panicked at ([^:\s]+:\d+)', pt or '')
@@ -389,7 +396,25 @@ class HistRunner:
         sched_dependent = (j > 1 and not keep and (not ok or r.rc != 0))
         if sched_dependent:
             self.stats['underbuild_not_judged_failing_parallel'] = self.stats.get('underbuild_not_judged_failing_parallel', 0) + len(missing_runs(ctx))
-        for n, w in sorted(missing_runs(ctx) if not sched_dependent else [], key=str):
+        def behind_optional_run(w):
+            # the model's reason leads (through its chain of reasons) to a script that was free to run or not ('maybe': the model
+            # took it over from the observation).  In a failing command the place of such an optional run relative to the failure
+            # is not modelled: the dependent the model then expects may rightly never have been started (soak 14, C05: t5 rebuilt
+            # inside the out-of-band build of t6, which then failed; t7 above both never started).
+            seen_ = set()
+            while w and ':' in w:
+                x = w.split(':', 1)[1]
+                if x in ctx['maybe']:
+                    return True
+                if x in seen_:
+                    return False
+                seen_.add(x)
+                w = ctx['reasons'].get(x)
+            return False
+        opt_dependent = [(n, w) for n, w in missing_runs(ctx) if (not ok or r.rc != 0) and not keep and ctx['maybe'] and behind_optional_run(w)]
+        if opt_dependent:
+            self.stats['underbuild_not_judged_failing_behind_optional_run'] = self.stats.get('underbuild_not_judged_failing_behind_optional_run', 0) + len(opt_dependent)
+        for n, w in sorted([x for x in missing_runs(ctx) if x not in opt_dependent] if not sched_dependent else [], key=str):
             anoms.append(Anomaly(cls='underbuild', key='underbuild:%s:%s' % (kinds_of(p, n), reason_class(w)),
                                  target=n, what='%s ran %d time(s), the model expects %d; model reason: %s' % (n, ex.get(n, 0), ctx['ran'].count(n), w)))
         if (r.rc == 0) != ok:
